@@ -164,7 +164,9 @@ func runC01(cx *Ctx, r *Report) {
 				r.toolErr("%s: cannot decode minted coin", key)
 				continue
 			}
-			L, lt, okL := findLeaf(fx, []Rat{m[0].Amt}, func(t string) bool { return strings.Contains(t, "BankKeeper.GetSupply(") && strings.HasSuffix(t, ".Amount") })
+			L, lt, okL := findLeaf(fx, []Rat{m[0].Amt}, func(t string) bool {
+				return strings.Contains(t, "BankKeeper.GetSupply(") && strings.HasSuffix(t, ".Amount")
+			})
 			if name == "AddLiquidity" {
 				if len(d) != 2 {
 					r.toolErr("%s: cannot decode deposit", key)
@@ -230,7 +232,9 @@ func runC01(cx *Ctx, r *Report) {
 			for _, o := range outs {
 				amts = append(amts, o.Amt)
 			}
-			L, _, okL := findLeaf(fx, amts, func(t string) bool { return strings.Contains(t, "BankKeeper.GetSupply(") && strings.HasSuffix(t, ".Amount") })
+			L, _, okL := findLeaf(fx, amts, func(t string) bool {
+				return strings.Contains(t, "BankKeeper.GetSupply(") && strings.HasSuffix(t, ".Amount")
+			})
 			if name == "RemoveLiquidity" {
 				if len(outs) != 2 {
 					r.toolErr("%s: cannot decode withdrawal", key)
